@@ -173,10 +173,10 @@ def run_case(case):
 
 
 def cases(tier, seed):
-    n = 250 if tier == "quick" else 12000
+    n = 250 if tier == "quick" else 30000
     for i in range(n):
         yield {"mode": "family", "seed": seed * 3571 + i, "knobs": {"max_depth": 1 + i % 2}, "nlines": 2 + i % 5,
                "opts": [{}, {"initialize_vars": True}][i % 2], "sample": i % 100 == 0}
-    m = 150 if tier == "quick" else 2500
+    m = 150 if tier == "quick" else 6000
     for i in range(m):
         yield {"mode": "sweep", "seed": seed * 7919 + i, "knobs": {"max_depth": 1}, "nlines": 1 + i % 2, "opts": {}, "sample": i % 70 == 0}
